@@ -85,6 +85,25 @@ def c01(step, res):
                 res.count('accepted_multi_consumer_post')
             if step.route == 'reshaper' and any(pl.values()):
                 res.count('accepted_reshaper_with_allocs')
+            # what each consumer of the request now HOLDS on a pair (all
+            # rows of that consumer/provider/class together) obeys the unit
+            # constraints as well - judged on the stored state, not on the
+            # request text
+            for (c, rp, rc), a in after.allocs.items():
+                inv = after.inventories.get((rp, rc))
+                if c not in pl or inv is None or a <= 0:
+                    continue
+                res.count('stored_amounts_judged')
+                bad = 'min_unit' if a < inv['min_unit'] else \
+                    'max_unit' if a > inv['max_unit'] else \
+                    'step_size' if a % inv['step_size'] != 0 else None
+                if bad:
+                    res.violation(
+                        'C01|unit-constraint-stored|%s|%s' % (rn, bad),
+                        'after accepted %s consumer %s holds %d on %s/%s '
+                        'violating %s (inventory %r)' % (rn, c, a, rp, rc,
+                                                         bad, inv),
+                        step.witness(pair=[rp, rc]))
             nrps = len({p for p, _ in pairs})
             for pair, amts in pairs.items():
                 inv = after.inventories.get(pair)
